@@ -66,7 +66,7 @@ def replay(data):
 
 
 def check(run):
-  timeout = 400 if run.tier == 'quick' else 1500
+  timeout = 900 if run.tier == 'quick' else 2400
   run.functions += ['client_datasets.padded_batch_client_datasets', 'buffered_shuffle', 'buffered_shuffle_batch_client_datasets',
                     'federated_data.padded_batch_federated_data', 'shuffle_repeat_batch_federated_data', 'RepeatableIterator',
                     'in_memory_federated_data.InMemoryFederatedData.clients/shuffled_clients']
